@@ -75,7 +75,8 @@ class NetMask(Resource):
     def make_netmask(cls, string: str | int, afi: AFI) -> NetMask:
         if afi == AFI.ipv4:
             if isinstance(string, str) and string in cls.codes:
-                klass = cls(cls.codes[string])
+                # not cls(value): Resource keeps one shared instance per value, and `maximum` depends on the family
+                klass = int.__new__(cls, cls.codes[string])
                 klass.maximum = 32
                 return klass
             maximum = 32
@@ -93,6 +94,8 @@ class NetMask(Resource):
         if value < 0 or value > maximum:
             raise ValueError('invalid netmask {}'.format(string))
 
-        klass = cls(value)
+        # not cls(value): Resource keeps one shared instance per value, so an IPv6 /32 would turn the mask of
+        # every IPv4 /32 parsed before it (a peer address for instance) into a 2^96 addresses range
+        klass = int.__new__(cls, value)
         klass.maximum = maximum
         return klass
